@@ -72,10 +72,15 @@ type sPlan struct {
 	// get a live one); CtxDelayUs[k] the delay before a "cancelled while waiting" context is cancelled.
 	ConsCtx    []int `json:"consumer_ctx,omitempty"`
 	CtxDelayUs []int `json:"consumer_ctx_cancel_delay_us,omitempty"`
+	// GateClose: every input's Close blocks until the consumer has been told End (the gate is opened
+	// only then, or after the verdict). SlowCloseMs: input 0's Close sleeps that long (latency is
+	// recorded, not judged).
+	GateClose   bool `json:"inputs_close_blocks_until_end_was_seen,omitempty"`
+	SlowCloseMs int  `json:"input0_close_sleeps_ms,omitempty"`
 }
 
 func (p sPlan) key() string {
-	s := fmt.Sprintf("smerge|close=%d|ctx=%v", p.CloseAfter, p.ConsCtx)
+	s := fmt.Sprintf("smerge|close=%d|ctx=%v|gate=%v,%d", p.CloseAfter, p.ConsCtx, p.GateClose, p.SlowCloseMs)
 	for _, in := range p.Inputs {
 		s += fmt.Sprintf("|%d,%d,%d,%d", in.N, in.Kind, in.FatalAt, in.ErrKind)
 	}
@@ -149,6 +154,12 @@ type recIn struct {
 	seq            atomic.Int64
 	kill           atomic.Bool
 	nextAfterClose atomic.Int64
+
+	// Close that blocks on a gate / sleeps.
+	closeGate         chan struct{}
+	closeSleep        time.Duration
+	closeEntered      atomic.Int64
+	closeReturnedWall atomic.Int64
 }
 
 func (s *recIn) Next(ctx context.Context) (uint64, error) {
@@ -181,7 +192,17 @@ func (s *recIn) Next(ctx context.Context) (uint64, error) {
 	return v, err
 }
 
-func (s *recIn) Close() { s.p.Close() }
+func (s *recIn) Close() {
+	s.closeEntered.Add(1)
+	if s.closeGate != nil {
+		<-s.closeGate
+	}
+	if s.closeSleep > 0 {
+		time.Sleep(s.closeSleep)
+	}
+	s.p.Close()
+	s.closeReturnedWall.Store(time.Now().UnixNano())
+}
 
 const (
 	phNext int32 = iota + 1
@@ -213,6 +234,16 @@ func runStream1(c *vkit.Case, p sPlan) {
 	gs := newGset()
 	gs.add()
 
+	var gate chan struct{}
+	var gateOnce sync.Once
+	if p.GateClose {
+		gate = make(chan struct{})
+	}
+	openGate := func() {
+		if gate != nil {
+			gateOnce.Do(func() { close(gate) })
+		}
+	}
 	ins := make([]*recIn, n)
 	streams := make([]stream.Stream[uint64], n)
 	lens := make([]int, n)
@@ -224,7 +255,10 @@ func runStream1(c *vkit.Case, p sPlan) {
 		pr := vkit.NewProbeStream(fmt.Sprintf("in%d", i), items)
 		pr.HonourCtx = true
 		pr.Clock = clock
-		ri := &recIn{p: pr, clock: clock, pert: vkit.NewPerturber(c.Rand, 16, in.Pace)}
+		ri := &recIn{p: pr, clock: clock, pert: vkit.NewPerturber(c.Rand, 16, in.Pace), closeGate: gate}
+		if i == 0 && p.SlowCloseMs > 0 {
+			ri.closeSleep = time.Duration(p.SlowCloseMs) * time.Millisecond
+		}
 		lens[i] = in.N
 		switch in.Kind {
 		case kindFatal:
@@ -376,6 +410,25 @@ func runStream1(c *vkit.Case, p sPlan) {
 				}
 			}
 		}
+		if p.GateClose || p.SlowCloseMs > 0 {
+			// What the inputs' Close calls were doing when the consumer was told (recorded, not judged).
+			entered, returned := 0, 0
+			for _, ri := range ins {
+				entered += int(ri.closeEntered.Load())
+				returned += int(ri.p.Closes.Load())
+			}
+			if outcome == outEnd {
+				r.Count("stream.Merge End arrived while input Close calls were", fmt.Sprintf("blocked or asleep in %d of %d inputs", entered-returned, n), 1)
+				if p.SlowCloseMs > 0 {
+					if returned < entered || entered < n {
+						r.Count("stream.Merge End and a Close that sleeps 20 ms", "End arrived before the slow Close returned", 1)
+					} else {
+						r.Count("stream.Merge End and a Close that sleeps 20 ms", "End arrived after every Close had returned", 1)
+					}
+				}
+			}
+			openGate() // only now: the verdict "End arrives while Close is blocked" is in
+		}
 		consPert.Do()
 		closeStart.Store(time.Now().UnixNano())
 		phase.Store(phClose)
@@ -403,6 +456,7 @@ func runStream1(c *vkit.Case, p sPlan) {
 		verdict, dump = vkit.Await(done, opts)
 	}
 	if verdict != vkit.AwaitDone {
+		defer openGate()
 		// Whatever the verdict, let goroutines that keep pulling from an endless input stop.
 		defer func() {
 			for _, ri := range ins {
@@ -433,6 +487,10 @@ func runStream1(c *vkit.Case, p sPlan) {
 			sig := "smerge-next-stuck"
 			if n == 0 {
 				sig = "smerge-zero-inputs-never-ends"
+			}
+			if p.GateClose {
+				// Every input is exhausted and everything delivered; only the inputs' Close calls are pending.
+				sig = "smerge-end-waits-for-input-close"
 			}
 			c.Violation(sig, fmt.Sprintf("Next of stream.Merge over %d inputs never returned although every input has ended, failed, or delivered everything the consumer was still owed: every goroutine of the case is parked for good", n),
 				witness(map[string]any{"goroutines": trunc(dump, 8000)}))
@@ -512,7 +570,15 @@ func runStream1(c *vkit.Case, p sPlan) {
 			}
 		}
 		if !ok {
-			// Lenient: an error an input really returned before the report, even a context error.
+			// An error an input returned only because the context Merge gave it was done is not the
+			// input's own error: if some input had failed on its own, that is what must be reported.
+			for i, ri := range ins {
+				if ft := ri.errTick.Load(); ft != 0 && ft < lastRet {
+					c.Violation("smerge-induced-cancel-reported", fmt.Sprintf("stream.Merge over %d inputs reported %q to a consumer whose context is live, although input %d had failed on its own with %q (tick %d): the error reported is at best the echo of Merge's own cancellation", n, repErr.Error(), i, ri.fatal.Error(), ft), hist(nil))
+					return
+				}
+			}
+			// No input failed on its own: an error an input really returned before the report.
 			for _, ri := range ins {
 				if ct := ri.ctxTick.Load(); ct != 0 && ct < lastRet {
 					if e, _ := ri.ctxErr.Load().(error); e != nil && (e == repErr || errors.Is(repErr, e)) {
@@ -873,10 +939,30 @@ func spinningAfterClose(gs *gset, ins []*recIn, phase *atomic.Int32, done <-chan
 	return false, w
 }
 
+// smergeGateCase: every input is finite; every input's Close blocks until the consumer has seen
+// End. The merged stream must end when the inputs are exhausted and everything is delivered, not
+// when their Close calls have returned.
+func smergeGateCase(c *vkit.Case) {
+	if c.R.NViolations() >= maxViolations {
+		return
+	}
+	rnd := c.Rand
+	n := arities[1+c.Index%(len(arities)-1)]
+	p := sPlan{Label: "close-blocks-until-End-was-seen", ConsPace: vkit.Pick(rnd, intensities), CloseAfter: -1, GateClose: true}
+	p.Inputs = genInputs(c, n, []int{1, 0, 0})
+	if c.Index%16 == 15 {
+		p.Label, p.GateClose, p.SlowCloseMs = "slow-close (latency recorded only)", false, 20
+	}
+	runStream(c, p)
+	if p.GateClose {
+		c.R.Count("stream.Merge", "plans whose inputs' Close blocks until End was seen", 1)
+	}
+}
+
 // ---------------------------------------------------------------------------------------------
 // Named regression scenarios for the defects already repaired in /repo (DESIGN section 5).
 
-const nRegress = 12
+const nRegress = 13
 
 func regressCase(c *vkit.Case) {
 	if c.R.NViolations() >= maxViolations {
@@ -971,6 +1057,14 @@ func regressCase(c *vkit.Case) {
 		f := rnd.Intn(n)
 		p.Inputs[f] = sInput{N: 3, Kind: kindFatal, FatalAt: rnd.Intn(4), ErrKind: rnd.Intn(len(errKindNames)), Pace: pace()}
 		p.Inputs[(f+1+rnd.Intn(n-1))%n] = sInput{Kind: kindEndless}
+		runStream(c, p)
+	case 12:
+		name = "End arrives when the inputs are exhausted, not when their Close calls have returned (Close blocks until End was seen)"
+		n := rnd.Range(1, 4)
+		p := sPlan{Label: name, CloseAfter: -1, ConsPace: pace(), GateClose: true}
+		for i := 0; i < n; i++ {
+			p.Inputs = append(p.Inputs, sInput{N: rnd.Intn(4), Kind: kindEnd, Pace: pace()})
+		}
 		runStream(c, p)
 	case 6:
 		name = "chans.Merge of zero inputs returns"
